@@ -27,6 +27,10 @@ CHECKS = {
    text="Seeded exploration of (fuzzer shape, property, expectation, seed, run count, run context) over properties compiled from source by the real tool-chain, against a shrink-free reference loop built from Prng::from_seed / sample / eval: found-or-not, iteration count, labels and verdict must agree; every counterexample is re-applied, replayed from its recorded choices, compared shortlex with the first failing case, and re-run on the same thread and alone on another thread under another hash epoch. The shrinker's memo table is checked operation by operation against the uncached function over model fuzzers with data-dependent consumption.",
    note="Trusted: Prng::sample and PropertyTest::eval as building blocks of the reference loop; the harness's own fuzz library (std lib cannot be fetched); replayability is required only for fuzzers that are replay-consistent on the unshrunk case.",
    technique="deterministic simulation: seeded seeds x fuzzer shapes x run contexts vs shrink-free reference model; model-based check of the shrinker cache over lookup histories"),
+ "C20": dict(engine="sim-storage", category="fault_enumeration", design_ref="DESIGN.md §4 C20",
+   text="Storage-fault subset of C20: artefacts produced by the real tool-chain (plutus.json, hex/CBOR/flat scripts, pretty UPLC, .ak sources, aiken.toml, parameter CBOR) are truncated, bit-flipped, torn between two genuine builds, or have blocks zeroed / duplicated / deleted / swapped / appended, then fed to the consumer the tool uses for that file and to the next consumer down the chain, on an 8 MiB stack. Quick samples seeded fault plans over the whole artefact corpus; thorough additionally enumerates every truncation point and every single-bit flip of artefacts up to 4 KiB. A panic, abort, stack overflow or hang is a violation.",
+   note="Claimed for the storage-fault model only: adversarially constructed inputs (deep nesting, grammar-aware garbage) are outside this technique family. Verdict taken in the shipped profile (no overflow checks). Invalid UTF-8 is rejected by fs::read_to_string before a text decoder sees it.",
+   technique="deterministic simulation: storage-fault injection (truncate / torn write / bit rot / misplaced block) on toolchain-written artefacts, with enumeration of all truncations and single-bit flips of small artefacts"),
  "C17": dict(engine="sim-sched", category="exploration", design_ref="DESIGN.md §4 C17",
    text="Seeded exploration of test-run schedules: the executor seam hands the real tests to 1-16 simulator-owned worker threads in a seeded assignment and order (one released at a time, exactly replayable), plus rayon's real scheduler at widths 2-16; results and result order are compared with the one-at-a-time run, and at every hand-off an ownership audit walks every Rc reachable from every test (no allocation shared between tests, none held from outside the test's own graph, no typed assertion attached). Sampling of schedules; the ownership invariant is decided exactly for every test set explored.",
    note="Trusted: the audited set is what a worker touches on this tree (programs, fuzzer/sampler programs, assertion); tests interleave at whole-test granularity; rayon leg is uncontrolled but its oracle cannot false-alarm.",
